@@ -22,6 +22,7 @@ func main() {
 		vlib.Group{Name: "exp", Gen: genExp},
 		vlib.Group{Name: "pow", Gen: genPow},
 		vlib.Group{Name: "powpsd", Gen: genPowPSD},
+		vlib.Group{Name: "reuse", Gen: genReuse},
 		vlib.Group{Name: "update-contracts", Gen: genUpdateMisc},
 		vlib.Group{Name: "chol-histories", Gen: genCholHist},
 		vlib.Group{Name: "lu-histories", Gen: genLUHist},
